@@ -1,7 +1,7 @@
 """C04 — never more than `concurrency` iterations in flight; all workers usable."""
 from ..core import hx
 ID = "C04"
-PROPS = ["F1Verif.Props.C04", "F1Verif.Props.FactsC04", "F1Verif.Props.CPool", "F1Verif.Props.RefineC02", "F1Verif.Props.RefineC02W", "F1Verif.Props.RefineC05S", "F1Verif.Props.RefineC05U"]
+PROPS = ["F1Verif.Props.C04", "F1Verif.Props.FactsC04", "F1Verif.Props.CPool", "F1Verif.Props.RefineC02", "F1Verif.Props.RefineC02W", "F1Verif.Props.RefineC05S", "F1Verif.Props.RefineC05U", "F1Verif.Props.RefineC18N"]
 ALSO = ["F1Verif.Props.Pool"]
 RULE = ("engine B/C on real pools: pool.usable — rounds in which all W gated iterations finish together with k < W "
         "requests pending and a tick of W follows after a swept delay of 0-50 us; W iterations must be executing again "
